@@ -109,6 +109,8 @@ class Body:
         self.trait_method = rec.get("trait_method")
         self.impl_self = rec.get("impl_self")
         self.n = len(self.blocks)
+        self.promoted_recs = rec.get("promoted", [])
+        self._promoted = {}
         self._succ = None
         self._pred = None
         self._dom = None
@@ -438,10 +440,10 @@ class Body:
                     break
             if ok:
                 cand[l] = True
-        # must not be borrowed
+        # must not be mutably borrowed (a shared borrow of a bool cannot change it)
         for b in range(self.n):
             for st in self.blocks[b]["stmts"]:
-                if st["k"] == "assign" and st["rv"]["k"] in ("ref", "rawptr"):
+                if st["k"] == "assign" and (st["rv"]["k"] == "rawptr" or (st["rv"]["k"] == "ref" and st["rv"].get("mut"))):
                     cand.pop(st["rv"]["pl"]["l"], None)
         self._flags = set(cand)
         return self._flags
@@ -594,6 +596,17 @@ class Body:
                     parent[nn] = node
                     dq.append(nn)
         return seen, parent
+
+    def promoted(self, idx):
+        """Body wrapper for promoted constant #idx of this body (its _0 is the promoted value)."""
+        if idx not in self._promoted:
+            if idx >= len(self.promoted_recs):
+                return None
+            rec = dict(self.promoted_recs[idx])
+            rec.update({"kind": "promoted", "parent": self.path, "direct_parent": self.path, "file": self.file,
+                        "line_lo": self.line_lo, "line_hi": self.line_hi, "args": 0})
+            self._promoted[idx] = Body("%s::promoted[%d]" % (self.path, idx), rec, self.prog)
+        return self._promoted[idx]
 
     # ---------------------------------------------------------------- misc
     def local_name(self, l):
